@@ -41,12 +41,35 @@ def mass_action_defect(m, nd):
     return (mu / kT + A @ lam), x
 
 
+def documented_defect(m, nd):
+    """the same projection with chemical potentials built from the DOCUMENTED partition functions (c07.spec_Zint / spec_Ztr, written from
+    the documentation, sharing no code with the library or with the regenerated kernels) and the reference energies / lowerings the
+    solver used (tied to their documented chains by the reference-energy correspondence)"""
+    import c07
+    E0 = np.asarray(getattr(m, "_LTE__E0"), dtype=float)
+    dE = np.asarray(getattr(m, "_LTE__dE"), dtype=float)
+    kT = u.k_b * m.T
+    mu = np.array([e0 / kT - math.log(c07.spec_Ztr(sp, m.T) * c07.spec_Zint(sp, m.T, de) / n)
+                   for sp, n, e0, de in zip(m.species, nd, E0, dE)])
+    names, A = sc.constraint_matrix(m)
+    x = nd / nd.sum()
+    w = np.sqrt(np.maximum(x, 1e-300))
+    lam, *_ = np.linalg.lstsq(A * w[:, None], -mu * w, rcond=None)
+    return (mu + A @ lam), x
+
+
 def judge(m, nd):
     if not np.all(np.isfinite(nd)) or not np.all(nd > 0):
         return None     # C02's business
     d, x = mass_action_defect(m, nd)
     if not np.all(np.isfinite(d)):
         return None
+    try:
+        d2, _ = documented_defect(m, nd)
+        if np.all(np.isfinite(d2)):
+            d = np.where(np.abs(d2) > np.abs(d), d2, d)      # the larger of the two defects, per species
+    except (ValueError, ZeroDivisionError, OverflowError):
+        pass
     worst = None
     for di, xi, sp in zip(d, x, m.species):
         lim = defect_limit(xi)
@@ -73,6 +96,12 @@ def check(run):
     if not res["ok"]:
         broken.append({"stage": "proof", "detail": res["error"]})
         run.note(f"proof obligation failed: {res['error']}")
+    # the chemical potentials of the theorems are built from the regenerated partition-function kernels; that these ARE the documented
+    # sums is C07's theorem file, a proof obligation of this property too
+    res7 = common.prove("thm/C07.v")
+    if not res7["ok"]:
+        broken.append({"stage": "proof", "detail": {"prerequisite": "thm/C07.v (partition-function kernels = documented sums)", "error": res7["error"]}})
+        run.note(f"prerequisite proof obligation failed (thm/C07.v): {res7['error']}")
     ok, refusals, _ = common.regenerate(["species", "mixture"])
     if not ok:
         broken.append({"stage": "translator", "detail": refusals})
